@@ -285,6 +285,90 @@ def drv_multistage(c, ctx, col):
     col.sample({"formula": s, "include_intercept": icpt, "flags": list(flags)})
 
 
+# histories of feature-flag changes on ONE parser object --------------------------
+
+PROBES = ["y ~ x", "a | b", "[a ~ b]", "y ~ a | b"]
+SPEC_FORMS = ["enum", "set"]
+TARGETS = ["parser", "resolver"]
+
+
+def flag_spec(flags, form):
+    """the same flag subset as a FeatureFlags value or as a set of (lower-case) strings"""
+    from formulaic.parser import DefaultFormulaParser
+    if form == "set":
+        return {f.lower() for f in flags}
+    v = DefaultFormulaParser.FeatureFlags.NONE
+    for f in flags:
+        v |= getattr(DefaultFormulaParser.FeatureFlags, f)
+    return v
+
+
+def run_on(parser, s):
+    """like run(), on a given parser object"""
+    try:
+        with_timeout(WATCHDOG_S, parser.get_terms, s)
+    except FormulaParsingError as e:
+        return ("REJECT", type(e).__name__)
+    except Timeout:
+        return ("TIMEOUT", None)
+    except Exception as e:  # noqa
+        return ("ESCAPE", "%s@%s" % (type(e).__name__, _where(e)), str(e)[:80])
+    return ("OK", None)
+
+
+def drv_flag_histories(c, ctx, col):
+    """A parser object is constructed with one flag subset, optionally used, and then re-configured by a history of
+    set_feature_flags calls -- on the parser or directly on its operator resolver, with the subset given as a
+    FeatureFlags value or as a set of strings -- optionally parsing between the calls.  After (almost) every step the
+    probe formulas must behave exactly as on a fresh parser constructed with the flags now in force; in particular
+    an operator that those flags disable must be rejected."""
+    from formulaic.parser import DefaultFormulaParser
+
+    init = c.pick(ctx["init_flags"])
+    init_form = c.pick(ctx["init_forms"])
+    warm = c.flag()          # parse once before the first change (builds the cached operator table)
+    n = 1 + c.upto(ctx["depth"] - 1)
+    parser = DefaultFormulaParser(feature_flags=flag_spec(init, init_form))
+    hist = ["DefaultFormulaParser(feature_flags=%r)" % (flag_spec(init, init_form),)]
+    if warm:
+        for s in PROBES:
+            run_on(parser, s)
+        hist.append("parse each of %r" % (PROBES,))
+    subsets = ctx["subsets"] if n <= 2 else ctx["subsets_deep"]
+    for step in range(n):
+        target, form, flags = c.pick(TARGETS), c.pick(SPEC_FORMS), c.pick(subsets)
+        spec = flag_spec(flags, form)
+        if target == "parser":
+            parser.set_feature_flags(spec)
+            hist.append("p.set_feature_flags(%r)" % (spec,))
+        else:
+            parser.operator_resolver.set_feature_flags(spec)
+            hist.append("p.operator_resolver.set_feature_flags(%r)" % (spec,))
+        last = step == n - 1
+        if not last and not c.flag():
+            continue             # two changes in a row without a parse in between
+        for s in PROBES:
+            got = run_on(parser, s)
+            col.interesting()
+            need = needed_flags(LX.lex(s)) - set(flags)
+            key = "flag-history :: %s ; then %r" % (" ; ".join(hist), s)
+            detail = {"history": list(hist), "formula": s, "flags_in_force": list(flags), "outcome": got,
+                      "repro": "p = " + " ; ".join(hist) + " ; p.get_terms(%r)" % s}
+            if got[0] in ("ESCAPE", "TIMEOUT"):
+                col.violation(key, detail, sig=got[1] or "no-termination-within-5s")
+            elif got[0] == "OK" and need:
+                col.violation(key, dict(detail, disabled_but_needed=sorted(need)),
+                              sig="disabled-operator-accepted-on-reconfigured-parser:" + "+".join(sorted(need)))
+            else:
+                fresh = run(s, True, tuple(flags), None)
+                if fresh[0] != got[0]:
+                    col.violation(key, dict(detail, fresh_parser_outcome=fresh), sig="reconfigured-parser-differs-from-fresh-parser")
+                elif need:
+                    col.count("disabled-operator-rejected")
+        hist.append("parse each of %r" % (PROBES,))
+    col.sample({"history": hist})
+
+
 # ---------------------------------------------------------------------------
 
 def selftest():
@@ -324,6 +408,15 @@ def subchecks(tier, seed):
         Sub("multistage", drv_multistage, {}, shard_depth=1,
             bounds={"operators": OPS, "operands": MS_OPERANDS, "shapes": MS_SHAPES, "flag_sets": [list(f) for f in MS_FLAGS]}),
     ]
+    subs.append(Sub("flag-histories", drv_flag_histories,
+                    {"init_flags": [ALL_FLAGS, (), FLAG_SETS[0]] if quick else FLAG_SETS, "init_forms": ["enum"] if quick else SPEC_FORMS,
+                     "depth": 2 if quick else 3, "subsets": FLAG_SETS, "subsets_deep": [ALL_FLAGS, (), ("TWOSIDED",), ("MULTISTAGE",)]},
+                    shard_depth=4,
+                    bounds={"constructed_with": "ALL, NONE, DEFAULT" if quick else "all 8 subsets, as FeatureFlags value and as set of strings",
+                            "parse_before_first_change": [False, True], "changes": "1..2" if quick else "1..3",
+                            "each_change": "set_feature_flags on {parser, parser.operator_resolver} x {FeatureFlags value, set of str} x "
+                                           "all 8 subsets (histories of 3 changes: 4 subsets)",
+                            "parse_between_changes": [False, True], "probe_formulas": PROBES}))
     if quick:
         subs.append(Sub("chars14", drv_chars, {"alphabet": CHARS14, "L": 5, "all_flags_upto": 0, "both_icpt_upto": 4,
                                                "flag_variation": False, "tag": "chars14"},
